@@ -6,7 +6,7 @@ from models import refprint
 ID = "C16"
 RULE = (
     "case = (print template assembled from <=3 (thorough 4) chunks over 10 text chunks and 6 (thorough 12) reference forms, subject only "
-    "to the constraints the reference notation itself imposes; file; qualifier form plain | onmatch | once, default or named printer stream); run as the real csvpath "
+    "to the constraints the reference notation itself imposes; file; qualifier form plain | onmatch | once, default or named printer stream, with and without print-mode: no-default); run as the real csvpath "
     "'@x = #a  @d.k = #b  push(\"s\", #a)  print(\"<template>\")' (+ a filter for onmatch) and compared per executed line with "
     "models/refprint.py: one printer entry per execution, every reference replaced by the current value, every other character "
     "unchanged, '..' directly after a reference = one literal dot; non-trivial = the template has a reference followed by text or by "
@@ -14,7 +14,7 @@ RULE = (
 )
 BOUNDS = {
     "quick": "all well-formed chunk sequences of length <=3 over 10 text chunks + 9 references; 2 files x plain, 1 file x onmatch/once for templates of length <=2",
-    "thorough": "all well-formed chunk sequences of length <=4 over 10 text chunks + 6 references, length <=3 over 13 references, length 5 over 4 text chunks + 4 references; 3 files x 5 forms (length >=4: one file, plain form)",
+    "thorough": "all well-formed chunk sequences of length <=4 over 10 text chunks + 6 references, length <=3 over 13 references, length 5 over 4 text chunks + 4 references; 3 files x 6 forms (length >=4: one file, plain form)",
 }
 CHUNK = 250
 BUDGET = {"quick": 600, "thorough": 3400}
@@ -70,6 +70,7 @@ def cases(tier, seed):
                 yield {"t": t, "file": 2, "form": "once"}
                 yield {"t": t, "file": 2, "form": "named"}
                 yield {"t": t, "file": 2, "form": "once_named"}
+                yield {"t": t, "file": 1, "form": "nodefault"}
     else:
         seen = set()
         for t in itertools.chain(templates(4, REFS6), templates(3, REFS12), templates(5, REFS6[:4], texts=[" ", "..", "a.b ", ": "])):
@@ -78,7 +79,7 @@ def cases(tier, seed):
                 continue
             seen.add(k)
             for f in range(3):
-                for form in ("plain", "onmatch", "once", "named", "once_named"):
+                for form in ("plain", "onmatch", "once", "named", "once_named", "nodefault"):
                     if len(t) >= 4 and (f != 0 or form != "plain"):
                         continue
                     yield {"t": t, "file": f, "form": form}
@@ -95,10 +96,11 @@ def run_case(case):
     rows = FILES[fi]
     path = sandbox.write_csv(rows)
     tmpl = refprint.render(t)
-    q = {"plain": "", "onmatch": ".onmatch", "once": ".once", "named": "", "once_named": ".once"}[form]
+    q = {"plain": "", "onmatch": ".onmatch", "once": ".once", "named": "", "once_named": ".once", "nodefault": ""}[form]
+    pm = " print-mode: no-default" if form == "nodefault" else ""  # only the registered capture printer exists: it must still get every entry
     filt = ' #a == "k"' if form == "onmatch" else ""
     stream = ', "audit"' if form in ("named", "once_named") else ""
-    text = f'~ title: T 1 ~ ${path}[*][ @x = #a @d.k = #b push("s", #a) print{q}("{tmpl}"{stream}){filt} ]'
+    text = f'~ title: T 1{pm} ~ ${path}[*][ @x = #a @d.k = #b push("s", #a) print{q}("{tmpl}"{stream}){filt} ]'
     o = run.run_csvpath(text)
     # model
     exp = []
